@@ -578,8 +578,79 @@ def r29_entry_or_insert_with(text, log):
     return text[:mt.start()] + after + text[oc + 1:]
 
 
+def r30_flat_map_filter_map(text, log):
+    """R30: `for (A, B) in RECV.iter().flat_map(|A| { A.F.iter().filter_map(move |B| { if COND { return None; } Some((A, B)) }) }) {BODY}` ->
+    `for ti__ in 0..RECV.len() { let A = &RECV[ti__]; for pi__ in 0..A.F.len() { let B = &A.F[pi__]; if !(COND) {BODY} } }`
+    (the std definitions of flat_map / filter_map: outer elements in order, inner elements in order, only those for which the
+    closure returns Some; BODY without continue/break: checked).  Nothing is lost."""
+    m = L.mask(text)
+    mt = re.search(r"\bfor\s*\(\s*(\w+)\s*,\s*(\w+)\s*\)\s*in\s*([\w.]+)\s*\.iter\(\)\s*\.flat_map\(", m)
+    if not mt:
+        raise Lost("R30: no `for (a, b) in X.iter().flat_map(..)` loop")
+    a, b, recv = mt.group(1), mt.group(2), mt.group(3)
+    po = mt.end() - 1
+    pc = L.match_close(m, po)
+    inner = re.sub(r"\s+", " ", m[po + 1:pc]).strip()
+    raw = re.sub(r"\s+", " ", text[po + 1:pc]).strip()
+    rx = (r"\|" + a + r"\| \{ " + a + r"\.([\w.]+)\.iter\(\)\.filter_map\(move \|" + b + r"\| \{ if (.+?) \{ return None; \} Some\(\(" + a + ", " + b + r"\)\) \}\) \}")
+    norm = lambda t: re.sub(r"\s*\.\s*", ".", t)
+    im = re.fullmatch(rx, norm(inner))
+    if not im:
+        raise Lost("R30: the flat_map closure is not `|a| { a.F.iter().filter_map(move |b| { if COND { return None; } Some((a, b)) }) }`")
+    rm = re.fullmatch(rx, norm(raw))
+    field, cond = rm.group(1), rm.group(2)
+    bo = L.depth0_find(m, pc + 1, len(m), "{")
+    if bo < 0 or m[pc + 1:bo].strip():
+        raise Lost("R30: unexpected text between the iterator expression and the loop body")
+    bc = L.match_close(m, bo)
+    if re.search(r"\b(continue|break)\b", m[bo:bc]):
+        raise Lost("R30: loop body contains continue/break")
+    head = (f"for ti__ in 0..{recv}.len() {{ let {a} = &{recv}[ti__];\n            for pi__ in 0..{a}.{field}.len() {{ let {b} = &{a}.{field}[pi__];\n            if !({cond}) {{")
+    log.append({"rule": "R30-flat-map-filter-map", "before": re.sub(r"\s+", " ", text[mt.start():bo + 1]), "after": head + " ... } } }"})
+    return text[:mt.start()] + head + text[bo + 1:bc] + "} } }" + text[bc + 1:]
+
+
+def r6b_for_tuple_in_vec(text, log, vec):
+    """R6b: `for (A, B) in V {BODY}` over a Vec of Copy pairs -> `for i__ in 0..V.len() { let (A, B) = V[i__]; BODY }`"""
+    m = L.mask(text)
+    mt = re.search(r"\bfor\s*\(\s*(\w+)\s*,\s*(\w+)\s*\)\s*in\s*" + re.escape(vec) + r"\s*\{", m)
+    if not mt:
+        raise Lost(f"R6b: no `for (a, b) in {vec}` loop")
+    a, b = mt.group(1), mt.group(2)
+    bo = mt.end() - 1
+    bc = L.match_close(m, bo)
+    if re.search(r"\b(continue|break)\b", m[bo:bc]):
+        raise Lost("R6b: loop body contains continue/break")
+    head = f"for i__ in 0..{vec}.len() {{ let ({a}, {b}) = {vec}[i__];"
+    log.append({"rule": "R6b-for-tuple-in-vec", "before": text[mt.start():mt.end()], "after": head + " ... }"})
+    return text[:mt.start()] + head + text[bo + 1:]
+
+
+def r25e_values_mut(text, log):
+    """R25e: `for V in M.values_mut() { V.f(ARGS); }` over a HashMap with Copy keys -> key snapshot; each value is taken out,
+    the method is run on it, and it is put back under its key:
+    `let keys__ = hashmap_keys(&M); let mut i__ = 0; while i__ < keys__.len() { let k__ = keys__[i__]; let mut V = M.remove(&k__).unwrap(); V.f(ARGS); M.insert(k__, V); i__ += 1; }`
+    ASSUMED: values_mut visits every value exactly once and gives access to the value only."""
+    m = L.mask(text)
+    mt = re.search(r"\bfor\s+(\w+)\s+in\s+([\w.]+)\.values_mut\(\)\s*\{", m)
+    if not mt:
+        raise Lost("R25e: no `for v in M.values_mut()` loop")
+    v, mp = mt.group(1), mt.group(2)
+    bo = mt.end() - 1
+    bc = L.match_close(m, bo)
+    body = text[bo + 1:bc].strip()
+    if not re.fullmatch(re.escape(v) + r"\.\w+\([^;{}]*\);", L.mask(body).strip()):
+        raise Lost("R25e: loop body is not a single method call on the value")
+    new = (f"let keys__ = hashmap_keys(&{mp}); let mut i__: usize = 0;\n        while i__ < keys__.len() {{ let k__ = keys__[i__]; let mut {v} = {mp}.remove(&k__).unwrap();\n"
+           f"            {body}\n            {mp}.insert(k__, {v}); i__ += 1;\n        }}")
+    log.append({"rule": "R25e-values-mut", "before": re.sub(r"\s+", " ", text[mt.start():bc + 1]), "after": new,
+                "assumed": "values_mut visits every value exactly once"})
+    return text[:mt.start()] + new + text[bc + 1:]
+
+
 STRUCTURAL = {"R11c": r11_closure, "R14": r14_all, "R16m": r16_drop_methods, "R12d": r12_debug_assert, "R5": r5_for_bytes, "R7": r7_mut_self, "R0": r0_named_return, "R4": r4_format, "R12": r12_unreachable,
-              "R6": r6_for_enumerate, "R10": r10_drop_loop, "R25": r25_hashmap_iter_mut, "R25b": r25b_hashmap_into_iter, "R25c": r25c_hashmap_retain, "R25d": r25d_amount_iter, "R26": r26_forward_ref_op, "R27": r27_entry_match, "R28": r28_nested_entry_binding, "R29": r29_entry_or_insert_with}
+              "R6": r6_for_enumerate, "R10": r10_drop_loop, "R25": r25_hashmap_iter_mut, "R25b": r25b_hashmap_into_iter, "R25c": r25c_hashmap_retain, "R25d": r25d_amount_iter, "R26": r26_forward_ref_op, "R27": r27_entry_match, "R28": r28_nested_entry_binding, "R29": r29_entry_or_insert_with,
+              "R30": r30_flat_map_filter_map, "R6b": r6b_for_tuple_in_vec, "R25e": r25e_values_mut}
 
 
 def apply_rewrites(text, rewrites, log):
@@ -784,6 +855,13 @@ def _extract_unit(repo, unit, log, canary=False):
             fn = unit.get("fn") or re.search(r"\bfn\s+(\w+)", L.mask(text)).group(1)
             text, n = re.subn(r"\bfn\s+" + re.escape(fn) + r"\b", "fn " + fn + "__canary", text, count=1)
             u["fn"] = fn + "__canary"
+            if unit.get("canary_rlimit"):
+                # a large function with many exits: the solver may search long before giving up on `false`; running out of the
+                # stated resource limit is as good as a failure for a vacuity canary (what must not happen is that it VERIFIES)
+                mm = L.mask(text)
+                fm = re.search(r"\bfn\s+" + re.escape(fn) + r"__canary\b", mm)
+                ls = text.rfind("\n", 0, fm.start()) + 1
+                text = text[:ls] + f"#[verifier::rlimit({unit['canary_rlimit']})]\n" + text[ls:]
         text = splice(text, u)
     except L.LexError as ex:
         raise Lost(f"lexer: {ex}")
